@@ -677,7 +677,8 @@ impl Printf {
         for component in &self.format.components {
             match component {
                 FormatComponent::Literal(literal) => write!(out, "{literal}")?,
-                FormatComponent::Flush => out.flush()?,
+                // \c: flush, and nothing more is printed for this file.
+                FormatComponent::Flush => break,
                 FormatComponent::Directive {
                     directive,
                     width,
